@@ -2,7 +2,7 @@
    pairs.  This file contains nothing but the property theorems, each closed by
    [exact <lemma>] and followed by Print Assumptions. *)
 From Coq Require Import ZArith List.
-From Tickit Require Import RectDefs RectProofs.
+From Tickit Require Import RectDefs RectSpec RectProofs RectSpecProofs.
 Local Open Scope Z_scope.
 
 Theorem C06_intersect_some : forall a b r, r_intersect a b = Some r ->
@@ -37,6 +37,20 @@ Theorem C06_contains : forall large small, nonempty small ->
   (r_contains large small = true <-> forall p, cell_in small p -> cell_in large p).
 Proof. exact contains_iff. Qed.
 Print Assumptions C06_contains.
+
+(* The oracle used on the implementation's outputs is sound: a [true] verdict of the
+   coordinate-compressed boolean checker implies the cell-wise specification for all cells. *)
+Theorem C06_oracle_add_sound : forall a b s, add_checkb a b s = true ->
+  (length s <= 3)%nat /\ all_nonempty s /\ pairwise_disjoint s /\
+  forall p, covered s p <-> cell_in a p \/ cell_in b p.
+Proof. exact add_checkb_sound. Qed.
+Print Assumptions C06_oracle_add_sound.
+
+Theorem C06_oracle_subtract_sound : forall a b s, subtract_checkb a b s = true ->
+  (length s <= 4)%nat /\ all_nonempty s /\ pairwise_disjoint s /\
+  forall p, covered s p <-> cell_in a p /\ ~ cell_in b p.
+Proof. exact subtract_checkb_sound. Qed.
+Print Assumptions C06_oracle_subtract_sound.
 
 (* non-vacuity: concrete rectangles meeting the hypotheses, with a 3-piece union *)
 Example C06_nonvacuous :
